@@ -154,8 +154,10 @@ func (s *Set) getTemplate(templatePath string, cacheAfterParsing bool) (t *Templ
 		}
 	}
 
+	verifYield("getTemplate:miss")
 	t, err = s.getTemplateFromLoader(templatePath, cacheAfterParsing)
 	if err == nil && cacheAfterParsing && !s.developmentMode {
+		verifYield("getTemplate:put")
 		s.cache.Put(templatePath, t)
 	}
 	return t, err
@@ -215,6 +217,7 @@ func (s *Set) Parse(templatePath, contents string) (template *Template, err erro
 // overriding any value previously set under the specified key.
 // It returns the Set it was called on to allow for method chaining.
 func (s *Set) AddGlobal(key string, i interface{}) *Set {
+	verifYield("AddGlobal")
 	s.gmx.Lock()
 	defer s.gmx.Unlock()
 	s.globals[key] = reflect.ValueOf(i)
@@ -224,6 +227,7 @@ func (s *Set) AddGlobal(key string, i interface{}) *Set {
 // LookupGlobal returns the global variable previously set under the specified key.
 // It returns the nil interface and false if no variable exists under that key.
 func (s *Set) LookupGlobal(key string) (val interface{}, found bool) {
+	verifYield("LookupGlobal")
 	s.gmx.RLock()
 	defer s.gmx.RUnlock()
 	val, found = s.globals[key]
